@@ -75,8 +75,60 @@ def reader_labels(ctx):
             os.remove(path)
         os.rmdir(tmpdir)
     ctx.extra['reader_nodes'] = seen
+    special_pairs(ctx)
     other_readers(ctx)
     cross_language(ctx)
+
+
+def special_pairs(ctx):
+    """every result the English grammar has for a punctuation / conjunction category next to a common
+    category (either order), as a two-leaf tree through auto_of and read_auto: readers must not take short
+    cuts around the grammar for such nodes"""
+    import os
+    import tempfile
+    from depccg.cat import Category
+    from depccg.tree import Tree
+    from depccg.types import Token
+    from depccg.printer.auto import auto_of
+    from depccg.tools.reader import read_auto
+    from depccg.grammar import en
+    from depccg import lang as dlang
+    marks = [',', '.', ';', ':', 'conj', 'LRB', 'RRB', 'LQU', 'RQU']
+    commons = ['NP', 'N', 'NP\\NP', 'S[dcl]', 'S[dcl]\\NP', 'S[ng]\\NP', 'S[pss]\\NP', 'S[b]\\NP', 'PP', '(S\\NP)\\(S\\NP)', 'NP[nb]', 'N/N',
+               'S[em]', 'S/S', 'NP/NP', '(NP\\NP)/NP', 'S[adj]\\NP', 'NP[conj]', 'S[dcl][conj]'[:0] or 'S[q]']
+    tmpdir = tempfile.mkdtemp(prefix='verif_c12s_')
+    path = os.path.join(tmpdir, 's.auto')
+    n = 0
+    try:
+        for a in marks:
+            for b in commons:
+                for x, y in ((Category.parse(a), Category.parse(b)), (Category.parse(b), Category.parse(a))):
+                    rs = en.apply_binary_rules(x, y)
+                    for r in rs:
+                        t = Tree.make_binary(r.cat, Tree.make_terminal(Token.of_word('u'), x), Tree.make_terminal(Token.of_word('v'), y),
+                                             r.op_string, r.op_symbol, r.head_is_left)
+                        with open(path, 'w', encoding='utf-8') as f:
+                            f.write('ID=1\n' + auto_of(t) + '\n')
+                        dlang.set_global_language_to('en')
+                        try:
+                            rt = list(read_auto(path))[0].tree
+                        except Exception as e:
+                            ctx.fail(f'read_auto raised {type(e).__name__} on a printed two-leaf tree', {'line': auto_of(t)},
+                                     fingerprint=['reader-raise', 'special'])
+                            continue
+                        finally:
+                            dlang.set_global_language_to('en')
+                        ctx.evaluations += 1
+                        n += 1
+                        labs = {(q.op_string, q.op_symbol) for q in rs if q.cat == r.cat}
+                        if (rt.op_string, rt.op_symbol) not in labs:
+                            ctx.fail(f'read-back node {r.cat} <- ({x}, {y}) is labelled {rt.op_string}/{rt.op_symbol}; the grammar derives it '
+                                     f'by {sorted(labs)}', {'line': auto_of(t)}, fingerprint=['reader-label', 'special'])
+    finally:
+        if os.path.exists(path):
+            os.remove(path)
+        os.rmdir(tmpdir)
+    ctx.extra['special_pair_nodes'] = n
 
 
 def other_readers(ctx):
